@@ -265,6 +265,47 @@ theorem shared_default_leaks :
   refine ⟨.step (a := 0) (.root (by simp)) (by simp [sharedDefault]),
     .step (a := 1) (.root (by simp)) (by simp [sharedDefault]), by simp [write, sharedDefault]⟩
 
+/-- **Interpreter-wide state that a document does not write stays what it was.**  `R` are the roots of the
+    interpreter-wide state (every class and every module global of plasTeX); a document whose mutations all go to
+    objects that cannot be reached from `R` leaves everything reachable from `R` — every class attribute, every
+    module-level table, at any depth — exactly as it was.  The document-level oracle snapshots all of these
+    attributes before and after every document of the `pair` stream (and conversely reports the attribute that
+    changed, e.g. a list that moved from the instance to the class). -/
+theorem unwritten_state_unchanged {R : List Nat} {h h' : Heap} (hs : WritesAvoid R h h') :
+    (∀ o, Reach h' R o ↔ Reach h R o) ∧ (∀ o, Reach h R o → h' o = h o) :=
+  avoid_frame hs
+
+/-- non-vacuity: class root 1 owns table 3; the document (holder 0, dict 2) writes only into its own dict -/
+example : WritesAvoid [1] twoDocs (write twoDocs 2 [4]) := by
+  refine .write 2 [4] (fun hr => ?_) (.done _)
+  generalize hx : (2 : Nat) = x at hr
+  induction hr with
+  | root h => simp at h; omega
+  | step ha hb ih =>
+    rename_i a b
+    by_cases h1 : a = 0
+    · subst h1; exact absurd ha (by
+        intro ha
+        generalize hy : (0 : Nat) = y at ha
+        induction ha with
+        | root h => simp at h; omega
+        | step ha' hb' ih' =>
+          rename_i a' b'
+          by_cases g1 : a' = 0
+          · subst g1; simp [twoDocs] at hb'; omega
+          · by_cases g2 : a' = 1
+            · subst g2; simp [twoDocs] at hb'; omega
+            · simp [twoDocs, g1, g2] at hb')
+    · by_cases h2 : a = 1
+      · subst h2; simp [twoDocs] at hb; omega
+      · simp [twoDocs, h1, h2] at hb
+
+/-- the `auxFiles` shape: the list (object 2) hangs off the class (root 1) and the document's `TeX` object (root 0)
+    only reaches it through the class: appending to it is a write the class-level state sees -/
+theorem class_level_list_is_written :
+    Reach sharedDefault [1] 2 ∧ write sharedDefault 2 [3] 2 ≠ sharedDefault 2 :=
+  ⟨shared_default_leaks.2.1, shared_default_leaks.2.2⟩
+
 end HoldersSec
 
 /-! ### file lookup (`TeX.kpsewhich`): the `TEXINPUTS` juggling and what a lookup may depend on -/
